@@ -68,6 +68,10 @@ impl Reservoir {
             .collect::<Vec<&mut [u8]>>();
         // Used when discarding chunks
         let end_of_lake = lake_chunks.len();
+        if end_of_lake == 0 {
+            // The source was empty, there is nothing to sample (and no chunk to pick below)
+            return self.lake;
+        }
         let mut counter = end_of_lake / self.k as usize;
         // Algorithm L is considered better than algorithm R because it
         // determines how many inputs can be skipped, rather than
